@@ -6,6 +6,7 @@ import (
 	"go/constant"
 	"go/token"
 	"go/types"
+	"golang.org/x/tools/go/packages"
 	"strings"
 )
 
@@ -278,6 +279,7 @@ func c17Run(r *Run) {
 			return true
 		})
 	}
+	c17KindTables(r, rp)
 	// NARROW: utils generic converters
 	r.curRule = "C17-NARROW"
 	uinfo := up.TypesInfo
@@ -543,4 +545,269 @@ func returnsErrVar(fd *ast.FuncDecl, name string) bool {
 		return true
 	})
 	return found
+}
+
+// c17KindTables: the table form of the kind dispatch. A map keyed by reflect.Kind whose values are
+// converter functions is judged like the arms of a `switch v.Kind()`: for the result direction
+// (func(reflect.Value) → script value) every entry builds the script value from the reflect accessor's
+// result and the numeric/bool/string kind groups map to their constructors; for the parameter direction
+// (func(script value) → (native, error)) a lookup that misses ends in an error.
+func c17KindTables(r *Run, rp *packages.Package) {
+	info := rp.TypesInfo
+	isKind := func(t types.Type) bool { return t != nil && isNamed(t, "reflect", "Kind") }
+	isReflectValue := func(t types.Type) bool { return isNamed(t, "reflect", "Value") }
+	isScriptValue := func(t types.Type) bool {
+		return isNamed(t, modPath+"/data", "GetValue") || isNamed(t, modPath+"/data", "Value")
+	}
+	type dirT int
+	const (
+		none dirT = iota
+		outbound
+		inbound
+	)
+	direction := func(t types.Type) dirT {
+		m, ok := t.Underlying().(*types.Map)
+		if !ok || !isKind(m.Key()) {
+			return none
+		}
+		sig, ok := m.Elem().Underlying().(*types.Signature)
+		if !ok || sig.Params().Len() != 1 {
+			return none
+		}
+		switch {
+		case isReflectValue(sig.Params().At(0).Type()) && sig.Results().Len() >= 1 && isScriptValue(sig.Results().At(0).Type()):
+			return outbound
+		case isScriptValue(sig.Params().At(0).Type()) && sig.Results().Len() == 2 && isErrorType(sig.Results().At(1).Type()):
+			return inbound
+		}
+		return none
+	}
+	kindName := func(e ast.Expr) (string, bool) {
+		if se, ok := ast.Unparen(e).(*ast.SelectorExpr); ok && isKind(info.TypeOf(se)) {
+			if _, isConst := info.Uses[se.Sel].(*types.Const); isConst {
+				return se.Sel.Name, true
+			}
+		}
+		return "", false
+	}
+	for _, fd := range funcDecls(rp) {
+		fk := funcKey(rp, fd)
+		// local closures: name → literal (single definition)
+		lits := map[types.Object]*ast.FuncLit{}
+		ast.Inspect(fd.Body, func(n ast.Node) bool {
+			if as, ok := n.(*ast.AssignStmt); ok && len(as.Lhs) == 1 && len(as.Rhs) == 1 {
+				if id, ok := as.Lhs[0].(*ast.Ident); ok {
+					if lit, ok := ast.Unparen(as.Rhs[0]).(*ast.FuncLit); ok {
+						if o := info.Defs[id]; o != nil {
+							lits[o] = lit
+						}
+					}
+				}
+			}
+			return true
+		})
+		resolve := func(e ast.Expr) *ast.FuncLit {
+			switch x := ast.Unparen(e).(type) {
+			case *ast.FuncLit:
+				return x
+			case *ast.Ident:
+				return lits[info.Uses[x]]
+			}
+			return nil
+		}
+		type entryT struct {
+			kinds []string
+			lit   *ast.FuncLit
+			pos   token.Pos
+		}
+		var outs []entryT
+		var add func(n ast.Node, loopKinds map[types.Object][]string)
+		add = func(n ast.Node, loopKinds map[types.Object][]string) {
+			ast.Inspect(n, func(m ast.Node) bool {
+				switch x := m.(type) {
+				case *ast.FuncLit:
+					return false
+				case *ast.RangeStmt:
+					if x == n {
+						return true
+					}
+					// for _, kind := range []reflect.Kind{…}
+					if cl, ok := ast.Unparen(x.X).(*ast.CompositeLit); ok && x.Value != nil {
+						if id, ok := x.Value.(*ast.Ident); ok {
+							var ks []string
+							for _, el := range cl.Elts {
+								if k, ok := kindName(el); ok {
+									ks = append(ks, k)
+								}
+							}
+							if len(ks) > 0 {
+								lk := map[types.Object][]string{}
+								for o, v := range loopKinds {
+									lk[o] = v
+								}
+								lk[info.Defs[id]] = ks
+								add(x.Body, lk)
+								return false
+							}
+						}
+					}
+				case *ast.AssignStmt:
+					for i, l := range x.Lhs {
+						ix, ok := ast.Unparen(l).(*ast.IndexExpr)
+						if !ok || i >= len(x.Rhs) || direction(info.TypeOf(ix.X)) != outbound {
+							continue
+						}
+						var ks []string
+						if k, ok := kindName(ix.Index); ok {
+							ks = []string{k}
+						} else if id, ok := ast.Unparen(ix.Index).(*ast.Ident); ok {
+							ks = loopKinds[info.Uses[id]]
+						}
+						if lit := resolve(x.Rhs[i]); lit != nil && len(ks) > 0 {
+							outs = append(outs, entryT{ks, lit, x.Pos()})
+						}
+					}
+				case *ast.CompositeLit:
+					if direction(info.TypeOf(x)) == outbound {
+						for _, el := range x.Elts {
+							if kv, ok := el.(*ast.KeyValueExpr); ok {
+								if k, ok := kindName(kv.Key); ok {
+									if lit := resolve(kv.Value); lit != nil {
+										outs = append(outs, entryT{[]string{k}, lit, kv.Pos()})
+									}
+								}
+							}
+						}
+					}
+				}
+				return true
+			})
+		}
+		add(fd.Body, nil)
+		if len(outs) > 0 {
+			covered := map[string]string{}
+			for _, e := range outs {
+				ctor := ""
+				ast.Inspect(e.lit.Body, func(m ast.Node) bool {
+					ce, ok := m.(*ast.CallExpr)
+					if !ok {
+						return true
+					}
+					cal, ok := calleeOf(info, ce).(*types.Func)
+					if !ok || cal.Pkg() == nil || cal.Pkg().Path() != modPath+"/data" || !strings.HasPrefix(cal.Name(), "New") {
+						return true
+					}
+					if ctor == "" {
+						ctor = cal.Name()
+					}
+					if len(ce.Args) != 1 {
+						return true
+					}
+					arg := ast.Unparen(ce.Args[0])
+					for {
+						conv, ok := arg.(*ast.CallExpr)
+						if !ok || len(conv.Args) != 1 {
+							break
+						}
+						if tv, ok := info.Types[conv.Fun]; !ok || !tv.IsType() {
+							break
+						}
+						arg = ast.Unparen(conv.Args[0])
+					}
+					direct := false
+					if ac, ok := arg.(*ast.CallExpr); ok {
+						if se, ok := ast.Unparen(ac.Fun).(*ast.SelectorExpr); ok && isReflectValue(info.TypeOf(se.X)) {
+							switch se.Sel.Name {
+							case "Int", "Uint", "Float", "Bool", "String":
+								direct = true
+							}
+						}
+					}
+					r.curRule = "C17-KIND"
+					key := fmt.Sprintf("%s#result-direct:%s", fk, strings.Join(e.kinds, ","))
+					if direct {
+						r.ok(key, ce.Pos(), "the script value is built from the reflect accessor's result (at most a Go numeric conversion)")
+					} else {
+						r.bad(key, ce.Pos(), fmt.Sprintf("%s(%s): the value given to the script is not the reflect accessor's result itself but a transformation of it: the script does not receive exactly what Go returned", cal.Name(), exprStr(ce.Args[0])))
+					}
+					return true
+				})
+				for _, k := range e.kinds {
+					covered[k] = ctor
+				}
+			}
+			r.curRule = "C17-EXH"
+			for _, g := range []struct {
+				name  string
+				kinds []string
+				want  string
+			}{
+				{"signed", []string{"Int", "Int8", "Int16", "Int32", "Int64"}, "NewIntValue"},
+				{"unsigned", []string{"Uint", "Uint8", "Uint16", "Uint32", "Uint64"}, "NewIntValue"},
+				{"float", []string{"Float32", "Float64"}, "NewFloatValue"},
+				{"bool", []string{"Bool"}, "NewBoolValue"},
+				{"string", []string{"String"}, "NewStringValue"},
+			} {
+				key := fmt.Sprintf("%s#result-kinds:%s", fk, g.name)
+				var missing []string
+				for _, k := range g.kinds {
+					if covered[k] != g.want {
+						missing = append(missing, k)
+					}
+				}
+				if len(missing) == 0 {
+					r.ok(key, outs[0].pos, fmt.Sprintf("%s kinds map to %s", g.name, g.want))
+				} else {
+					r.bad(key, outs[0].pos, fmt.Sprintf("result kinds %v do not map to %s (they fall to the stringifying fallback or another entry): the script receives a value of the wrong type", missing, g.want))
+				}
+			}
+		}
+		// parameter direction: v, ok := table[T.Kind()] — a miss must end in an error
+		ast.Inspect(fd.Body, func(n ast.Node) bool {
+			as, ok := n.(*ast.AssignStmt)
+			if !ok || len(as.Lhs) != 2 || len(as.Rhs) != 1 {
+				return true
+			}
+			ix, ok := ast.Unparen(as.Rhs[0]).(*ast.IndexExpr)
+			if !ok || direction(info.TypeOf(ix.X)) != inbound {
+				return true
+			}
+			okID, isID := as.Lhs[1].(*ast.Ident)
+			if !isID {
+				return true
+			}
+			okObj := info.Defs[okID]
+			if okObj == nil {
+				okObj = info.Uses[okID]
+			}
+			errs := false
+			ast.Inspect(fd.Body, func(m ast.Node) bool {
+				is, ok := m.(*ast.IfStmt)
+				if !ok {
+					return true
+				}
+				u, ok := ast.Unparen(is.Cond).(*ast.UnaryExpr)
+				if !ok || u.Op != token.NOT {
+					return true
+				}
+				if id, ok := ast.Unparen(u.X).(*ast.Ident); !ok || info.Uses[id] != okObj {
+					return true
+				}
+				for _, st := range is.Body.List {
+					if rs, ok := st.(*ast.ReturnStmt); ok && len(rs.Results) >= 1 && exprStr(rs.Results[len(rs.Results)-1]) != "nil" {
+						errs = true
+					}
+				}
+				return true
+			})
+			r.curRule = "C17-EXH"
+			key := fk + "#default-arm"
+			if errs {
+				r.ok(key, as.Pos(), "a parameter kind that is not in the table ends in a catchable error")
+			} else {
+				r.bad(key, as.Pos(), "the lookup of the parameter kind in the converter table has no error exit for a miss: an unsupported signature yields an invalid reflect.Value and the call panics")
+			}
+			return true
+		})
+	}
 }
